@@ -391,13 +391,15 @@ def BASE(value, base, places=DEFAULT):
             return places
         if places < 0:
             return error.NUM
+    if not 2 <= base <= 36 or value < 0:
+        return error.NUM
     if value == 0:
         return '0'
     digits = []
     while value:
-        digits.append(int(value % base))
+        digits.append('0123456789ABCDEFGHIJKLMNOPQRSTUVWXYZ'[int(value % base)])
         value //= base
-    result = ''.join(str(n) for n in digits[::-1])
+    result = ''.join(digits[::-1])
     if places is not DEFAULT:
         if len(result) > places:
             return error.NUM
